@@ -86,7 +86,9 @@ func c05World(c *Ctx) *refgraph.World {
 			params = params.Set(name, wire.ObjV(wire.M("name", wire.StrV(tag)), wire.M("in", wire.StrV("query")), wire.M("type", wire.StrV("array")),
 				wire.M("items", wire.ObjV(wire.M("type", wire.StrV("string")), wire.M("format", wire.StrV(tag))))))
 			resps = resps.Set(name, wire.ObjV(wire.M("description", wire.StrV(tag)), wire.M("schema", wire.ObjV(wire.M("$ref", wire.StrV("#/definitions/"+refgraph.PtrEscape(name)))))))
-			pis = pis.Set("/"+name, wire.ObjV(wire.M("get", wire.ObjV(wire.M("description", wire.StrV(tag)), wire.M("responses", wire.ObjV(wire.M("200", wire.ObjV(wire.M("description", wire.StrV("ok")))), wire.M("default", wire.ObjV(wire.M("description", wire.StrV("anything else "+tag))))))))))
+			pis = pis.Set("/"+name, wire.ObjV(wire.M("parameters", wire.ArrV(wire.ObjV(wire.M("$ref", wire.StrV("#/parameters/"+(&url.URL{Fragment: refgraph.PtrEscape(name)}).EscapedFragment()))),
+				wire.ObjV(wire.M("name", wire.StrV("inline-"+tag)), wire.M("in", wire.StrV("query")), wire.M("type", wire.StrV("string"))),
+				wire.ObjV(wire.M("$ref", wire.StrV("#/parameters/does-not-exist"))))), wire.M("get", wire.ObjV(wire.M("description", wire.StrV(tag)), wire.M("responses", wire.ObjV(wire.M("200", wire.ObjV(wire.M("description", wire.StrV("ok")))), wire.M("default", wire.ObjV(wire.M("description", wire.StrV("anything else "+tag))))))))))
 		}
 		defs = defs.Set("plain", wire.ObjV(wire.M("type", wire.StrV("string")), wire.M("description", wire.StrV(fmt.Sprintf("plain-of-doc%d", di)))))
 		doc = doc.Set("definitions", defs).Set("parameters", params).Set("responses", resps)
@@ -146,6 +148,10 @@ func c05Targets(w *refgraph.World) []c05Target {
 						c05Target{u, []string{sec.name, mem.K, "put", "responses", "200"}, "response"},
 						c05Target{u, []string{sec.name, mem.K, "get", "parameters", "0"}, "parameter"},
 						c05Target{u, []string{sec.name, mem.K, "parameters", "2"}, "parameter"},
+						// entries of the path-level parameter list: a reference object (the designated sub-document IS that
+						// object: nothing nested is followed, whether or not it leads anywhere), an inline parameter
+						c05Target{u, []string{sec.name, mem.K, "parameters", "0"}, "parameter"},
+						c05Target{u, []string{sec.name, mem.K, "parameters", "1"}, "parameter"},
 						c05Target{u, []string{sec.name, mem.K, "get", "responses", "200", "schema"}, "schema"})
 				}
 				if sec.kind == "schema" {
